@@ -101,7 +101,7 @@ func (k KnownFinding) matches(prop string, v *Violation) bool {
 }
 
 // nativeReplay runs the replay inputs of one package against the natively built harness.
-func nativeReplay(l *Loaded, short string, inputs map[string]*ReplayIn) (map[string]*ReplayOut, string, error) {
+func nativeReplay(l *Loaded, short string, inputs map[string]*ReplayIn, race bool) (map[string]*ReplayOut, string, error) {
 	tmp, err := os.MkdirTemp("", "symgo-replay-")
 	if err != nil {
 		return nil, "", err
@@ -139,9 +139,14 @@ func nativeReplay(l *Loaded, short string, inputs map[string]*ReplayIn) (map[str
 	ovb, _ := json.Marshal(map[string]interface{}{"Replace": ov})
 	ovFile := filepath.Join(tmp, "overlay.json")
 	os.WriteFile(ovFile, ovb, 0644)
-	cmd := exec.Command("go", "test", "-tags", "verif", "-overlay", ovFile, "-run", "^TestVerifReplay$", "-count=1", "-vet=off", "-timeout", "20m", ".")
+	args := []string{"test", "-tags", "verif", "-overlay", ovFile, "-run", "^TestVerifReplay$", "-count=1", "-vet=off", "-timeout", "20m"}
+	if race {
+		args = append(args, "-race")
+	}
+	args = append(args, ".")
+	cmd := exec.Command("go", args...)
 	cmd.Dir = dir
-	cmd.Env = append(os.Environ(), "GOFLAGS=-mod=mod", "GOPROXY=off", "GOSUMDB=off", "GOTOOLCHAIN=local", "VERIF_REPLAY_DIR="+inDir, "GOMAXPROCS=1")
+	cmd.Env = append(os.Environ(), "GOFLAGS=-mod=mod", "GOPROXY=off", "GOSUMDB=off", "GOTOOLCHAIN=local", "VERIF_REPLAY_DIR="+inDir, map[bool]string{false: "GOMAXPROCS=1", true: "GOMAXPROCS=8"}[race])
 	outb, err := cmd.CombinedOutput()
 	res := map[string]*ReplayOut{}
 	for name := range inputs {
@@ -270,8 +275,10 @@ func checkMain(args []string) int {
 		byPkg[p.short][p.name] = p.in
 	}
 	replayStart := time.Now()
+	replayLogs := map[string]string{}
 	for short, ins := range byPkg {
-		res, log, err := nativeReplay(l, short, ins)
+		res, log, err := nativeReplay(l, short, ins, prop == "C19")
+		replayLogs[short] = log
 		for k, v := range res {
 			outs[k] = v
 		}
@@ -294,6 +301,15 @@ func checkMain(args []string) int {
 			continue
 		}
 		if p.wit != nil {
+			// assertions that exist only natively (concurrent stress phase) are not part of the comparison
+			out.Reached = dropNativeOnly(out.Reached)
+			var tr []TraceRec
+			for _, t := range out.Traces {
+				if !strings.Contains(t.ID, ".concurrent_") {
+					tr = append(tr, t)
+				}
+			}
+			out.Traces = tr
 			ok := out.End == "done" && strsEqual(out.Reached, p.wit.Reached) && len(out.Failed) == 0
 			why := ""
 			if ok {
@@ -322,6 +338,17 @@ func checkMain(args []string) int {
 			repro = out.End == "panic"
 		case v.Kind == "unwind":
 			repro = false
+		case v.Kind == "global-write" || v.Kind == "pool":
+			// confirmed by the native concurrent stress run: the race detector reports a race, or
+			// the concurrent observations differ from the sequential ones
+			if strings.Contains(replayLogs[p.short], "DATA RACE") {
+				repro = true
+			}
+			for _, f := range out.Failed {
+				if strings.Contains(f, "concurrent") {
+					repro = true
+				}
+			}
 		}
 		isKnown := false
 		for _, k := range known {
@@ -497,5 +524,15 @@ func keysOf(m map[string]bool) []string {
 		r = append(r, k)
 	}
 	sort.Strings(r)
+	return r
+}
+
+func dropNativeOnly(ids []string) []string {
+	var r []string
+	for _, id := range ids {
+		if !strings.Contains(id, ".concurrent_") {
+			r = append(r, id)
+		}
+	}
 	return r
 }
